@@ -1427,6 +1427,11 @@ def obsInt : Except Err Expr → Int
   | .ok (.lit (.int n)) => n
   | _ => -999
 
+/-- a flat integer list result -/
+def obsInts : Except Err Expr → Option (List Int)
+  | .ok (.lit (.list xs)) => asInts xs
+  | _ => none
+
 def obsErr : Except Err Expr → Option Err
   | .error e => some e
   | .ok _ => none
